@@ -213,14 +213,20 @@ def est_ms(t):
 
 
 def spread(batch, shards=16):
-    """order the records so that the shards of tlc.validate_traces (every 16th record) get about the same work: heaviest first, dealt in snake order"""
-    batch.sort(key=lambda t: -est_ms(t))
-    out = []
-    for g in range(0, len(batch), shards):
-        grp = batch[g:g + shards]
-        if (g // shards) % 2 and len(grp) == shards:
-            grp.reverse()
-        out += grp
+    """order the records so that the shards of tlc.validate_traces (shard s = every 16th record from s) get about the same work:
+    longest-processing-time-first into the least loaded shard that still has room (all shards keep the sizes striding gives them)"""
+    n = len(batch)
+    sizes = [len(range(s, n, shards)) for s in range(shards)]
+    bins = [[] for _ in range(shards)]
+    load = [0] * shards
+    for t in sorted(batch, key=lambda t: -est_ms(t)):
+        s = min((s for s in range(shards) if len(bins[s]) < sizes[s]), key=lambda s: load[s])
+        bins[s].append(t)
+        load[s] += est_ms(t)
+    out = [None] * n
+    for s in range(shards):
+        for i, t in enumerate(bins[s]):
+            out[s + i * shards] = t
     return out
 
 
